@@ -612,7 +612,9 @@ def stress(tmpl, base, sid, init, n, r):
 
 
 # ------------------------------------------------------------------ staleness against REAL edits of the data (spec/C18/StaleTrace.tla)
-EDITS = ("main-device", "overlay-addons", "overlay-restricted", "new-device", "cached-config")
+EDITS = ("main-device", "overlay-addons", "overlay-restricted", "new-device", "cached-config",
+         # a file rewritten IN PLACE with content of the same size, its modification time moved by 0.2 s inside the same second of the clock
+         "inplace-device", "inplace-config")
 
 
 def private_data(base, name):
@@ -695,10 +697,44 @@ def stale_scenario(job):
         evs.append({"ev": "Run", "mode": mode, "ok": r_["ok"], "digest": r_["digest"], "effective": True, "kind": "none", "msg": r_["msg"]})
         return r_["digest"]
 
+    # the in-place edits start from a regular file (a verbatim copy of the shipped one) whose modification time is a chosen instant of the past
+    T0 = (int(time.time()) - 40) * 10**9 + 100_000_000
+    inplace = None
+    if kind == "inplace-device":
+        idev = "mimxrt1189"                                     # the battery asks for this device's purpose text: one letter of it is changed
+        os.remove(os.path.join(data, "devices", idev))
+        os.makedirs(os.path.join(data, "devices", idev))
+        for f in os.listdir(os.path.join(real, "devices", idev)):
+            if f != "database.yaml":
+                os.symlink(os.path.join(real, "devices", idev, f), os.path.join(data, "devices", idev, f))
+        src = os.path.join(real, "devices", idev, "database.yaml")
+        txt = open(src, "rb").read()
+        at = txt.index(b"\n  purpose: ") + len(b"\n  purpose: ")
+        word = txt[at:at + 4]
+        inplace = (os.path.join(data, "devices", idev, "database.yaml"), src, b"\n  purpose: " + word, b"\n  purpose: " + (b"Q" if word[:1] != b"Q" else b"X") + word[1:])
+    elif kind == "inplace-config":
+        sch = os.path.join(data, "jsonschemas", "sch_mbi.yaml")
+        os.remove(sch)
+        first = next(k for k in yaml.safe_load(open(os.path.join(real, "jsonschemas", "sch_mbi.yaml"))) if len(k) >= 3)
+        inplace = (sch, os.path.join(real, "jsonschemas", "sch_mbi.yaml"), f"\n{first}:".encode(), f"\n{first[:-1]}{'Z' if first[-1] != 'Z' else 'Y'}:".encode())
+    if inplace:
+        with open(inplace[0], "wb") as f:
+            f.write(open(inplace[1], "rb").read())
+        os.utime(inplace[0], ns=(T0, T0))
     t0 = run("truth")
     run("cache")
     run("cache")
-    if kind == "main-device":
+    if inplace:
+        body = open(inplace[0], "rb").read()
+        if body.count(inplace[2]) < 1 or len(inplace[2]) != len(inplace[3]):
+            raise Machinery(f"in-place edit {kind}: marker {inplace[2]!r} not found in {inplace[1]}")
+        with open(inplace[0], "r+b") as f:                     # same inode, same size
+            f.write(body.replace(inplace[2], inplace[3], 1))
+        os.utime(inplace[0], ns=(T0 + 200_000_000, T0 + 200_000_000))
+        st = os.stat(inplace[0])
+        if st.st_size != len(body) or st.st_mtime_ns // 10**9 != T0 // 10**9 or st.st_mtime_ns == T0:
+            raise Machinery(f"in-place edit {kind}: the file system did not keep size / sub-second time ({st.st_size}, {st.st_mtime_ns})")
+    elif kind == "main-device":
         os.remove(os.path.join(data, "devices", dev))
         edited_device(real, dev, os.path.join(data, "devices", dev))
     elif kind == "overlay-addons":
@@ -901,7 +937,7 @@ def run(tier):
                      "interposition + solo first use on every damaged state (missing/empty/stale/wrong type/garbage/prefixes of the valid file) + late kills + "
                      "alternating two-process races + unsynchronised fresh interpreters; every scenario ends with an epilogue process and an independent "
                      "classification of both cache files; distinct by (initial state, schedule)")
-    v.assumptions += ["a lock wait either ends when the holder releases, or times out (scheduled scenarios `lockwait-*`: the waiting process is told so and must go on without the cache)", "same-size-same-mtime edits of the data folder are outside 'stale'",
+    v.assumptions += ["a lock wait either ends when the holder releases, or times out (scheduled scenarios `lockwait-*`: the waiting process is told so and must go on without the cache)", "edits that keep BOTH the size and the modification time (to the nanosecond) of a data file are outside 'stale' (an in-place edit of the same size 0.2 s later inside the same clock second is inside)",
                       "scheduled processes are forked children of a pre-imported interpreter; fresh interpreters are used in the stress rounds only",
                       "a kill happens between primitives; states inside one write are covered by the prefix sweep"]
     return v.finish()
